@@ -278,7 +278,10 @@ func execC13(t *testing.T, raw json.RawMessage) *sim.Outcome {
 	if o == nil {
 		o = &sim.Outcome{}
 	}
-	if fail != "" {
+	if fail != "" && sim.LeftoverOnly(fail) {
+		// the session ran to its end (see sim.LeftoverOnly): its verdicts stand
+		o.Probe("goroutines_left_after_the_last_operation")
+	} else if fail != "" {
 		o.All = nil
 		failBubble(o, fail)
 		o.Signature = "stalled"
@@ -711,8 +714,8 @@ func sessionC13(t *testing.T, raw json.RawMessage) *sim.Outcome {
 			}
 		case "forward":
 			rawReq, _ := hex.DecodeString(op.Raw)
-			if wantOp == "forward" && !bytes.Equal(gotBytes, append([]byte{0xEE}, rawReq...)) {
-				o.Fail("C13.result", "forward_reply", i, "%s: raw reply %x, served %x", tag, trunc(gotBytes), trunc(append([]byte{0xEE}, rawReq...)))
+			if wantOp == "forward" && !bytes.Equal(gotBytes, echoReply(rawReq)) {
+				o.Fail("C13.result", "forward_reply", i, "%s: raw reply %x, served %x", tag, trunc(gotBytes), trunc(echoReply(rawReq)))
 			}
 		case "addhardcert_legacy":
 			if string(gotBytes) != "SUCCESS" {
